@@ -56,11 +56,13 @@ func (c *Ctx) registry(rule string) *registryModel {
 			continue
 		}
 		uses := false
-		core.EachInstr(fn, func(i ssa.Instruction) {
-			if call, ok := i.(*ssa.Call); ok && core.CalleeKey(&call.Call) == "reflect.VisibleFields" {
-				uses = true
-			}
-		})
+		for _, f := range c.initFamily(fn) {
+			core.EachInstr(f, func(i ssa.Instruction) {
+				if call, ok := i.(*ssa.Call); ok && core.CalleeKey(&call.Call) == "reflect.VisibleFields" {
+					uses = true
+				}
+			})
+		}
 		if uses {
 			rm.initFn = fn
 		}
@@ -69,7 +71,7 @@ func (c *Ctx) registry(rule string) *registryModel {
 		c.R.Unresolved(rule, "init function building the schema field registry (reflect.VisibleFields)")
 		return nil
 	}
-	for _, fn := range core.WithAnon(rm.initFn) {
+	for _, fn := range c.initFamily(rm.initFn) {
 		core.EachInstr(fn, func(i ssa.Instruction) {
 			switch x := i.(type) {
 			case *ssa.BinOp:
@@ -1844,4 +1846,35 @@ func ruleC17IndexRulesForArrays(c *Ctx) {
 		})
 	}
 	c.R.Floor(rule, "readings of a pointer token as an array index", n, 1)
+}
+
+// initFamily: an init function, its closures, and the package helpers it calls that nothing else calls (the table
+// building split into buildFieldInfos / sortFieldInfos).
+func (c *Ctx) initFamily(initFn *ssa.Function) []*ssa.Function {
+	out := core.WithAnon(initFn)
+	seen := map[*ssa.Function]bool{initFn: true}
+	for k := 0; k < len(out) && len(out) < 12; k++ {
+		core.EachInstr(out[k], func(i ssa.Instruction) {
+			call, ok := i.(ssa.CallInstruction)
+			if !ok {
+				return
+			}
+			h := call.Common().StaticCallee()
+			if h == nil || seen[h] || !c.P.InPkg(h) || h.Parent() != nil || len(h.Blocks) == 0 || !c.P.OnlyStaticCallers(h) {
+				return
+			}
+			for _, site := range c.P.CallIndex().Sites[h] {
+				top := site.Parent()
+				for top.Parent() != nil {
+					top = top.Parent()
+				}
+				if !seen[top] {
+					return
+				}
+			}
+			seen[h] = true
+			out = append(out, core.WithAnon(h)...)
+		})
+	}
+	return out
 }
